@@ -449,7 +449,7 @@ def fsize_sweep_part(R, quick):
     from neuroglancer_scripts import accessor
     rng = R.rng
     ctx = mp.get_context("fork")
-    for kind in (["sharded", "deep"] if quick else ["sharded", "deep", "flat", "sharded"]):
+    for ki, kind in enumerate(["sharded", "deep"] if quick else ["sharded", "deep", "flat", "sharded"]):
         cs = 4
         grid = (2, 2, 1) if quick else (2, 2, 2)
         payloads = []
@@ -467,7 +467,7 @@ def fsize_sweep_part(R, quick):
                                              "minishard_index_encoding": rng.choice(["raw", "gzip"]),
                                              "data_encoding": "raw"}
         # size of the largest file of a complete run
-        ref = os.path.join(R.tmp, f"fsz-{kind}-ref", "a", "b", "ds")
+        ref = os.path.join(R.tmp, f"fsz-{ki}-{kind}-ref", "a", "b", "ds")
         os.makedirs(ref)
         open(os.path.join(ref, "info"), "w").write(json.dumps(info))
         a, b = ctx.Pipe()
@@ -486,7 +486,7 @@ def fsize_sweep_part(R, quick):
             continue
         limits = list(range(0, top)) if top <= 400 else sorted(set(rng.sample(range(top), 300)) | {0, 1, top - 1})
         for lim in limits:
-            base = os.path.join(R.tmp, f"fsz-{kind}-{lim}", "a", "b", "ds")
+            base = os.path.join(R.tmp, f"fsz-{ki}-{kind}-{lim}", "a", "b", "ds")
             os.makedirs(base)
             with open(os.path.join(base, "info"), "w") as f:
                 f.write(json.dumps(info))
@@ -519,7 +519,7 @@ def fsize_sweep_part(R, quick):
                 else:
                     R.violation("a failing write surfaced as an unrelated exception", case, {"exception": res})
             import shutil
-            shutil.rmtree(os.path.join(R.tmp, f"fsz-{kind}-{lim}"), ignore_errors=True)
+            shutil.rmtree(os.path.join(R.tmp, f"fsz-{ki}-{kind}-{lim}"), ignore_errors=True)
     R.notes.append("file-size-limit sweep (RLIMIT_FSIZE in a forked child, every byte position of the largest file): "
                    "exercises real short/failing writes of the OS, which the primitive-level model cannot exhibit")
 
